@@ -47,7 +47,7 @@ func runC10(c *core.Ctx) {
 		isMark := isStoreTo(c, "Context.IsRetryRequest", "const(true)")
 		for _, s := range sends {
 			okk, w, _ := condMust(c, next, nil, func(in ssa.Instruction) bool { return in == s.(ssa.Instruction) }, isMark, []string{
-				"F:(const(0) < fld(struct.sendTimes,*",
+				"T:(fld(struct.sendTimes,*) < const(1))",
 				"T:fld(Context.IsRetryRequest,*",
 			})
 			a.check(okk, fname(next)+" retry marker before send", s, "a send with sendTimes>0 is always marked IsRetryRequest", "a re-send (sendTimes > 0) can go out without the retry marker: "+a.w(w))
